@@ -196,5 +196,5 @@ class DelayedMixin:
         value = argtest.gte("delay", value, 0, float)
         if value != self.__delay:
             for cstr in self.__constrained:
-                getattr(self, cstr).duration = value + self.__step_time
+                getattr(self, cstr).duration = value
             self.__delay = value
